@@ -326,6 +326,29 @@ def mand_value_inputs(name, base, singles, values):
     return out
 
 
+def many_occurrences(msg, base, singles, counts=(17, 33, 70), per_msg=3):
+    """one small optional element k times, every copy with contents of its own (the LAST one is the message's value), then:
+    nothing / the same element cut short / every other optional element once / an unknown identifier.  A decoder that stops
+    looking after some number of elements keeps an earlier copy and accepts what follows unread."""
+    out = []
+    byiei = {}
+    for e in sorted(singles, key=len):
+        k = e[0] if e[0] < 128 else e[0] // 16
+        byiei.setdefault(k, e)
+    small = sorted(byiei.items(), key=lambda kv: (len(kv[1]), kv[0]))
+    picks = [kv for kv in small if len(kv[1]) >= 2][:per_msg] or small[:1]
+    others = lambda k: [x for kk, e in small if kk != k for x in salted(msg, e, 0x27 + kk)]
+    u = unknown_octet(msg)
+    for k, e in picks:
+        for n in counts:
+            run = [x for i in range(n) for x in salted(msg, e, (0x11 + 7 * i) % 251)]
+            out.append(base + run)
+            if len(e) > 2: out.append(base + run + e[:len(e) - 1])
+            out.append(base + run + others(k))
+            out.append(base + run + [u])
+    return out
+
+
 def container_slots(name):
     """names of the elements of a message that carry another message or an arbitrary octet string of up to 64 KiB"""
     return [s["name"] for s in TBL[name]["slots"] if s["lsz"] == 2 and s["data"] == "buf" and s["max"] >= 65535
